@@ -118,8 +118,63 @@ pub fn model_of(k: &Kind, eff: &str, with_eft: bool, sfx: &str, e_spelling_suffi
 
 pub fn gen_rule(rng: &mut Rng, k: &Kind, with_eft: bool) -> Vec<String> {
     let mut r: Vec<String> = k.pvals.iter().map(|u| rng.pick(u).clone()).collect();
-    if with_eft { r.push(rng.pick(&["allow", "allow", "deny", "deny", "other"]).to_string()); }
+    // the effect column: mostly allow/deny, sometimes another word, the empty string, a case variant or a blank-edged spelling
+    // (all of these are "neither allow nor deny")
+    if with_eft { r.push(rng.pick(&["allow", "allow", "allow", "allow", "deny", "deny", "deny", "deny", "other", "other", "", "Allow", "DENY", " allow", "deny "]).to_string()); }
     r
+}
+
+/// unusual but valid values: empty, blank-only, blank-edged, case variants, names that coincide with constants of the
+/// implementation or with model syntax, separators, multi-byte text, numbers and booleans spelled as strings
+pub const ODD: [&str; 27] = ["", "", "", " ", "*", "DEFAULT", "alice ", " alice", "Alice", "ALICE", "a,b", "é", "日本", "p", "g", "eft",
+    "allow", "deny", "true", "1", "#", "a#b", "_", "r.sub", "p_sub", "\"q\"", "a b"];
+
+/// kinds whose value columns are plain names (no patterns, regexes, expressions or attribute maps)
+pub const PLAIN_KINDS: [&str; 7] = ["acl", "superuser", "without-users", "without-resources", "rbac", "resource-roles", "domains"];
+
+/// the same kind over a universe in which one to three names are replaced by (or joined by) unusual values, consistently in
+/// the policy universes, the request universes and the link universes — so rules, links and requests still meet
+pub fn spice_kind(rng: &mut Rng, k: &Kind) -> (Kind, Vec<(String, String)>) {
+    let mut cands: Vec<String> = vec![];
+    for u in &k.pvals { for v in u { if !cands.contains(v) { cands.push(v.clone()); } } }
+    for u in &k.links { for l in u { for v in l { if !cands.contains(v) { cands.push(v.clone()); } } } }
+    let mut map: Vec<(String, String)> = vec![];
+    // domain names (third place of a role link) are preferred targets: the role manager files links per domain
+    let doms: Vec<String> = { let mut d = vec![]; for u in &k.links { for l in u { if l.len() == 3 && !d.contains(&l[2]) { d.push(l[2].clone()); } } } d };
+    for i in 0..1 + rng.below(3) {
+        let from = if i == 0 && !doms.is_empty() && rng.chance(1, 2) { rng.pick(&doms).clone() } else { rng.pick(&cands).clone() };
+        let to = if rng.chance(1, 5) { String::new() } else { rng.pick(&ODD).to_string() };
+        if map.iter().any(|(f, t)| *f == from || *t == to) || cands.contains(&to) { continue; }
+        map.push((from, to));
+    }
+    let alongside = rng.chance(1, 3);
+    (rename_kind(k, &map, alongside), map)
+}
+
+/// `k` with every name `from` replaced by `to` (or, with `alongside`, joined by it) in all its universes
+pub fn rename_kind(k: &Kind, map: &[(String, String)], alongside: bool) -> Kind {
+    let sub = |v: &String| -> Option<String> { map.iter().find(|(f, _)| f == v).map(|(_, t)| t.clone()) };
+    let mut k2 = k.clone();
+    let spice_u = |u: &Vec<String>, enc: bool| -> Vec<String> {
+        let mut out = vec![];
+        for v in u {
+            let hit = if enc { map.iter().find(|(f, _)| sval(f) == *v).map(|(_, t)| sval(t)) } else { sub(v) };
+            match hit { Some(t) => { if alongside { out.push(v.clone()); } out.push(t); } None => out.push(v.clone()) }
+        }
+        out
+    };
+    k2.pvals = k.pvals.iter().map(|u| spice_u(u, false)).collect();
+    k2.rvals = k.rvals.iter().map(|u| spice_u(u, true)).collect();
+    k2.links = k.links.iter().map(|u| {
+        let mut out = vec![];
+        for l in u {
+            let l2: Vec<String> = l.iter().map(|v| sub(v).unwrap_or_else(|| v.clone())).collect();
+            if alongside && l2 != *l { out.push(l.clone()); }
+            out.push(l2);
+        }
+        out
+    }).collect();
+    k2
 }
 
 /// all requests: the cross product of the request universes plus "", an out-of-universe value and wrong arities
@@ -196,6 +251,31 @@ pub fn run(rec: &mut Recorder, w: &mut World, tier: &str, seed: u64) {
                 rec.count(if rules.is_empty() { "policy:empty" } else { "policy:non-empty" });
                 rec.nontrivial_case(&format!("{}|{}|{:?}|{:?}", k.name, ename, rules, links));
                 if it == 0 && *ename == "priority" { rec.sample(format!("kind={} effect={} matcher={} rules={:?} links={:?} -> {}", k.name, ename, m.m[0].2, rules, links, out)); }
+            }
+        }
+    }
+    // ---- the plain-name kinds over universes with unusual values (empty, blank-edged, "*", "DEFAULT", case variants, …) ----
+    for k0 in ks.iter().filter(|k| PLAIN_KINDS.contains(&k.name)) {
+        for (ename, eff) in EFFECTS.iter() {
+            for _ in 0..per {
+                let (k, map) = spice_kind(&mut rng, k0);
+                let reqf = enc_reqs(&requests(&k));
+                let with_eft = *ename != "allow-override" || rng.chance(1, 2);
+                let m = model_of(&k, eff, with_eft, "", false);
+                let n = match rng.below(8) { 0 => 1, 1..=3 => 2, 4 | 5 => 3, _ => 4 + rng.below(12) };
+                let mut rules: Vec<Vec<String>> = vec![];
+                for _ in 0..n { let r = gen_rule(&mut rng, &k, with_eft); if !rules.contains(&r) { rules.push(r); } }
+                let links = gen_links(&mut rng, &k);
+                rec.begin();
+                let lines = lines_of("p", &rules, &k.g, &links);
+                if new_enforcer(rec, w, &m, "memory", &lines, "", false) != "ok" { rec.count("new:failed"); continue; }
+                let out = rec.exec(w, &format!("e.enfs\t{}", reqf));
+                tally(rec, &out);
+                if out.contains('p') { rec.fail("enforce-panicked", format!("kind {} effect {} with values {:?}: a request made enforce panic: {}", k.name, ename, map, out)); }
+                rec.count(&format!("kind:{}", k.name));
+                rec.count("universe:unusual-values");
+                for (_, t) in &map { rec.count(&format!("unusual-value:{:?}", t)); }
+                rec.nontrivial_case(&format!("odd|{}|{}|{:?}|{:?}|{:?}", k.name, ename, map, rules, links));
             }
         }
     }
